@@ -456,7 +456,154 @@ func (g *c06gen) exitStmt(ind int, inFuncReturn bool) string {
 	return choices[g.r.Intn(len(choices))]
 }
 
+// deepNest emits one function whose frame holds a nest of 1-8 simultaneously
+// active iterations — for statements outside, comprehension clauses (possibly
+// several per comprehension, possibly a comprehension inside a comprehension)
+// inside — over 1-3 collections, some of them iterated at several levels. At
+// every level the collections being iterated must refuse mutation; a collection
+// whose (only) iteration has just ended must accept it again; the nest is left
+// from a random level by break, continue, return, a dynamic error, an injected
+// host error/panic/cancel or the enumerated step limit.
+func (g *c06gen) deepNest() {
+	nc := g.r.Range(1, 3)
+	var actual []c06coll
+	for i := 0; i < nc; i++ {
+		if len(g.colls) > 0 && g.r.Chance(1, 3) {
+			actual = append(actual, g.colls[g.r.Intn(len(g.colls))])
+		} else {
+			c := g.newColl()
+			if c.n == 0 && g.r.Chance(3, 4) {
+				c = g.newColl()
+			}
+			actual = append(actual, c)
+		}
+	}
+	g.addDef("boom", "def boom(x):\n    return [1][x + 5]\n")
+	g.addDef("tick", "def tick(n):\n    n[0] += 1\n    return n[0]\n")
+	depth := g.r.Pick3(g.r.Range(1, 3), g.r.Range(3, 5), g.r.Range(5, 8))
+	nfor := g.r.Intn(depth + 1) // outer levels that are for statements; the rest are comprehension clauses
+	if g.r.Chance(1, 4) {
+		nfor = depth
+	}
+	fn := g.fresh("nest")
+	var params []string
+	for i := range actual {
+		params = append(params, fmt.Sprintf("c%d", i))
+	}
+	same := func(i, j int) bool { return actual[i].name == actual[j].name }
+	isActive := func(active []int, i int) bool {
+		for _, a := range active {
+			if same(a, i) {
+				return true
+			}
+		}
+		return false
+	}
+	var b strings.Builder
+	fmt.Fprintf(&b, "def %s(%s):\n    n = [0]\n", fn, strings.Join(params, ", "))
+	ind := func(k int) string { return strings.Repeat("    ", k) }
+	checks := func(active []int) []string { // must_fail calls for (a sample of) the active collections
+		var out []string
+		for _, a := range active {
+			if g.r.Chance(2, 3) {
+				out = append(out, fmt.Sprintf("must_fail(%s, c%d)", g.mut(actual[a]), a))
+			}
+		}
+		return out
+	}
+	// comprehension over levels [lvl, depth): returns an expression
+	var comp func(lvl int, active []int) string
+	comp = func(lvl int, active []int) string {
+		k := g.r.Range(1, depth-lvl) // clauses in this comprehension
+		var clauses []string
+		act := append([]int{}, active...)
+		for j := 0; j < k; j++ {
+			ci := g.r.Intn(len(actual))
+			clauses = append(clauses, fmt.Sprintf("for v%d in c%d", lvl+j, ci))
+			act = append(act, ci)
+			if g.r.Chance(1, 4) {
+				switch g.r.Intn(4) {
+				case 0:
+					clauses = append(clauses, fmt.Sprintf("if tick(n) != %d or boom(0)", g.r.Range(1, 9)))
+				case 1:
+					clauses = append(clauses, fmt.Sprintf("if tick(n) != %d or fault(\"n\")", g.r.Range(1, 9)))
+				case 2:
+					clauses = append(clauses, fmt.Sprintf("if must_fail(%s, c%d) == None", g.mut(actual[ci]), ci))
+				default:
+					clauses = append(clauses, fmt.Sprintf("if tick(n) %% %d != 0", g.r.Range(2, 4)))
+				}
+			}
+		}
+		elems := checks(act)
+		if lvl+k < depth {
+			elems = append(elems, comp(lvl+k, act))
+		}
+		if len(elems) == 0 {
+			elems = append(elems, "tick(n)")
+		}
+		elem := "(" + strings.Join(elems, ", ") + ",)"
+		if g.r.Chance(1, 4) {
+			return fmt.Sprintf("{tick(n): %s %s}", elem, strings.Join(clauses, " "))
+		}
+		return fmt.Sprintf("[%s %s]", elem, strings.Join(clauses, " "))
+	}
+	var level func(lvl int, active []int)
+	level = func(lvl int, active []int) {
+		in := lvl + 1
+		if lvl >= depth {
+			fmt.Fprintf(&b, "%stick(n)\n", ind(in))
+			return
+		}
+		if lvl >= nfor {
+			fmt.Fprintf(&b, "%sr%d = %s\n", ind(in), lvl, comp(lvl, active))
+			return
+		}
+		ci := g.r.Intn(len(actual))
+		act := append(append([]int{}, active...), ci)
+		fmt.Fprintf(&b, "%sfor x%d in c%d:\n", ind(in), lvl, ci)
+		for _, c := range checks(act) {
+			fmt.Fprintf(&b, "%s%s\n", ind(in+1), c)
+		}
+		if g.r.Chance(1, 2) {
+			fmt.Fprintf(&b, "%sif tick(n) == %d:\n%s%s\n", ind(in+1), g.r.Range(1, 8), ind(in+2), g.exitStmt(in+2, true))
+		}
+		level(lvl+1, act)
+		// after the inner levels: what they iterated (and nothing outside does) is mutable again
+		for j := range actual {
+			if !isActive(act, j) && g.r.Chance(1, 2) {
+				fmt.Fprintf(&b, "%smust_ok(%s, c%d)\n", ind(in+1), g.mut(actual[j]), j)
+			}
+		}
+		for _, c := range checks(act) {
+			fmt.Fprintf(&b, "%s%s\n", ind(in+1), c)
+		}
+		if g.r.Chance(1, 3) {
+			fmt.Fprintf(&b, "%sif tick(n) == %d:\n%s%s\n", ind(in+1), g.r.Range(2, 20), ind(in+2), g.exitStmt(in+2, true))
+		}
+		if !isActive(active, ci) {
+			// emitted after the loop, at the enclosing level
+			defer func() { fmt.Fprintf(&b, "%smust_ok(%s, c%d)\n", ind(in), g.mut(actual[ci]), ci) }()
+		}
+	}
+	level(0, nil)
+	fmt.Fprintf(&b, "    return n[0]\n")
+	g.addDef(fn, b.String())
+	var args []string
+	for _, c := range actual {
+		args = append(args, c.name)
+	}
+	g.emit(1, "attempt(%s, %s)", fn, strings.Join(args, ", "))
+	for _, c := range actual {
+		g.emit(1, "must_ok(%s, %s)", g.mut(c), c.name)
+	}
+	g.tags = append(g.tags, fmt.Sprintf("deep-nest:%d", depth))
+}
+
 func (g *c06gen) construct() {
+	if g.r.Chance(1, 5) {
+		g.deepNest()
+		return
+	}
 	var c c06coll
 	if len(g.colls) == 0 || g.r.Chance(1, 3) {
 		c = g.newColl()
